@@ -455,6 +455,8 @@ def run(ck: Check):
         if not oracle(results[i]):
             ck.broke("correspondence", replay_obj(results[i]))
     nfixed = check_fixed(ck)
+    ck.run_fixed({"rejected_add_registers_no_callback": "C15:callbacks-not-once",
+                  "second_half_runs_at_the_outer_teardown": "C15:callbacks-not-once"})
     dist = {"cli": 0, "outcomes": {}, "startup_fault": {}, "run_result_kinds": {}, "callbacks": 0, "service_tasks": 0,
             "components": 0, "signal_after_startup_cli": 0}
     dist["runs_with_raising_callbacks"] = sum(1 for r in results if any(o[0] == "Td" and o[1] in (r.get("raisers") or []) for o in r["log"]))
